@@ -36,6 +36,16 @@ namespace tr
 #define VT_DISALLOW_ONE(...) passes<xtl::check_disallow_one, pack<__VA_ARGS__>>::value
 #endif
 
+    // round 3: the macros as they are used - as a defaulted non-type template parameter of a function template
+    template <class... C, XTL_REQUIRES(C...)> constexpr bool fn_requires(int) { return true; }
+    template <class... C> constexpr bool fn_requires(long) { return false; }
+    template <class... C, XTL_EITHER(C...)> constexpr bool fn_either(int) { return true; }
+    template <class... C> constexpr bool fn_either(long) { return false; }
+    template <class... C, XTL_DISALLOW(C...)> constexpr bool fn_disallow(int) { return true; }
+    template <class... C> constexpr bool fn_disallow(long) { return false; }
+    template <class... C, XTL_DISALLOW_ONE(C...)> constexpr bool fn_disallow_one(int) { return true; }
+    template <class... C> constexpr bool fn_disallow_one(long) { return false; }
+
     // representatives of the type kinds of [basic.types] for all_scalar
     struct k_class {};
     enum k_enum { k_e0 };
